@@ -75,8 +75,6 @@ type IRaftPersistStorage interface {
 	SaveSnap(snap raftpb.Snapshot) error
 	Load() (*raftpb.Snapshot, error)
 	LoadNewestAvailable(walSnaps []walpb.Snapshot) (*raftpb.Snapshot, error)
-	// RemoveOrphans removes snapshot files newer than the given one that the wal does not record.
-	RemoveOrphans(walSnaps []walpb.Snapshot, newest *raftpb.Snapshot) error
 	// Close closes the Storage and performs finalization.
 	Close() error
 	// Release releases the locked wal files older than the provided snapshot.
@@ -397,8 +395,12 @@ func (rc *raftNode) startRaft(ds DataStorage, standalone bool) error {
 		}
 		// snapshot files left without their wal record by a crash would otherwise count as the newest
 		// ones for the purge and evict the snapshot we are starting from
-		if rerr := rc.persistStorage.RemoveOrphans(walSnaps, snapshot); rerr != nil {
-			rc.Infof("failed to remove orphaned snapshot files: %v", rerr)
+		if ro, ok := rc.persistStorage.(interface {
+			RemoveOrphans([]walpb.Snapshot, *raftpb.Snapshot) error
+		}); ok {
+			if rerr := ro.RemoveOrphans(walSnaps, snapshot); rerr != nil {
+				rc.Infof("failed to remove orphaned snapshot files: %v", rerr)
+			}
 		}
 		if err == snap.ErrNoSnapshot || raft.IsEmptySnap(*snapshot) {
 			rc.Infof("loading no snapshot \n")
